@@ -138,6 +138,14 @@ class C17Engine(C10.C10Engine):
                                                  "raised": o[2]},
                                 f"refuse:{cell}:{probe}:raised-{o[1]}-under-concurrent-readers")
 
+    def raw_subclass_renderer(self) -> Any:
+        C = self.env.C
+        base = self.env.DefaultSQL
+        reg = dict(base.model_renderers)
+        for T in (C.Table, C.Column, C.Enum, C.EnumItem):
+            reg[T] = (lambda model, _n=T.__name__: f"<raw:{_n}:{getattr(model, 'name', None)}>")
+        return type("RawDictSQLRenderer", (base,), {"model_renderers": reg, "__module__": "verif.sim"})
+
     # ------------------------------------------------------------ one injection cycle
     def cycle(self, cell: str, g: random.Random, ctx: Any) -> None:
         """inject -> probe -> heal.  Raises Skip when not realisable."""
@@ -177,6 +185,17 @@ class C17Engine(C10.C10Engine):
                 try:
                     for pn, po in objs:
                         self.expect_raises(cell, pn + ".sql", lambda po=po: po.sql, AME, ctx)
+                    if g.random() < 0.5:
+                        # the same element under a user's SQL renderer: a subclass of the default one whose registry
+                        # was filled directly (dict entries, not the decorator).  The required-attribute check
+                        # belongs to rendering, whoever's handler produces the text.
+                        saved_r = rdb.sql_renderer
+                        rdb.sql_renderer = self.raw_subclass_renderer()
+                        try:
+                            self.expect_raises(cell, "self.sql[subclass-renderer-with-own-dict-entries]",
+                                               lambda: o.sql, AME, ctx)
+                        finally:
+                            rdb.sql_renderer = saved_r
                 finally:
                     setattr(o, attr, old)
             else:  # ctor: a new object built with None in place, attached, probed, removed again
